@@ -165,6 +165,37 @@ def read_all(data, reader_cls=DiffXReader, stream=None, limit=None):
     return recs, exc, r, gen
 
 
+def read_all_hostile(data, reader_cls=DiffXReader):
+    """Like read_all, but the consumer edits every record in place after
+    taking a deep copy of it: what was yielded belongs to the consumer and
+    must not influence how the rest of the file is read."""
+    import copy
+    s = io.BytesIO(data)
+    r = reader_cls(s)
+    recs = []
+    exc = None
+    try:
+        for rec in r.iter_sections():
+            recs.append(copy.deepcopy(rec))
+            opts = rec.get('options')
+            if isinstance(opts, dict):
+                opts.clear()
+                opts['encoding'] = 'utf-32'
+                opts['length'] = 1
+                opts['indent'] = 3
+                opts['line_endings'] = 'dos'
+            if isinstance(rec.get('metadata'), dict):
+                rec['metadata'].clear()
+            rec.clear()
+            rec['section'] = 'x'
+            rec['level'] = 7
+    except BaseException as e:
+        if isinstance(e, (KeyboardInterrupt, SystemExit)):
+            raise
+        exc = e
+    return recs, exc
+
+
 def rec_content(rec):
     for k in ('text', 'metadata', 'diff'):
         if k in rec:
